@@ -135,7 +135,7 @@ def gen_ignored(rng, base):
 
 def render_file(rng, ctx, header, sections):
     out = []
-    counter = [rng.randrange(0, 100)]
+    counter = [rng.choice((rng.randrange(0, 100), 0xFFF0, 0xFFFE, 0xFF00 + rng.randrange(256)))]  # the 16-bit line index may wrap
     if header.get("Firmware"):
         fwid, ver = header["Firmware"]
         out.append("##Firmware: " + R.firmware_comment(fwid, "ID-engine", ver))
@@ -152,7 +152,19 @@ def render_file(rng, ctx, header, sections):
             out += [l for l in lines if l.startswith(":")]
         else:
             out += s.render(counter)
-    return "\n".join(out) + "\n"
+    text = "\n".join(out) + "\n"
+    r = rng.random()
+    if r < 0.12:
+        text = text.replace("\n", "\r\n")
+        ctx.bin("bf2_text_with_crlf_line_ends")
+    elif r < 0.24:
+        # hex of the data / marker lines in lower case
+        text = "\n".join((l.lower() if l.startswith(":") else l) for l in text.split("\n"))
+        ctx.bin("bf2_data_lines_in_lower_case_hex")
+    elif r < 0.32:
+        text = "\n".join((l + "  " if l.startswith(":") else l) for l in text.split("\n"))
+        ctx.bin("bf2_data_lines_with_trailing_blanks")
+    return text
 
 
 def expected_file(header, sections):
